@@ -74,6 +74,7 @@ METER = "ComponentCategory.METER"
 class Ctx:
     def __init__(self, prog: Program) -> None:
         self.prog = prog
+        _SUBCLASSES[:] = [prog.subclasses]  # (class-level constant tables: not overridden below the class that reads them)
         fg = prog.cls(f"{GEN}._formula_generator:FormulaGenerator")
         cons = prog.cls(f"{GEN}._consumer_power_formula:ConsumerPowerFormula")
         self.R: dict[str, str | None] = {}     # anchored (historical) name -> name of the function that plays the role
@@ -1223,7 +1224,7 @@ def check_emit(run: Run, cx: Ctx) -> None:
         v = g.target.id  # type: ignore[union-attr]
         cond = g.ifs[0] if len(g.ifs) == 1 else ast.BoolOp(op=ast.And(), values=list(g.ifs))
         ok = bool(g.ifs) and txt(cx.value(home, defs, g.iter)) == f"self.{cx.R['_get_grid_component_successors']}()" and txt(sc.elt) == v \
-            and category_set(bcanon(cx.norm(deref(cond, defs, containers=True))), v) == {"INVERTER", "EV_CHARGER", "METER"}  # type: ignore[union-attr]
+            and category_set(bcanon(cx.norm(deref(constant_tables(home, cond), defs, containers=True))), v) == {"INVERTER", "EV_CHARGER", "METER"}  # type: ignore[union-attr]
     run.check(ok, "C12.EMIT", gp.qual, "grid power = Σ over every grid successor that is a meter / inverter / EV charger",
               "grid power does not range over every measurable grid successor", node=gp.node, file=gp.file)
     # consumer with grid meter: the subtracted set is found from *every* grid meter
@@ -1491,6 +1492,79 @@ def collection_def(cx: Ctx, fn: FuncInfo, e: ast.AST, depth: int = 0) -> tuple[F
             if len(rets) == 1:
                 return collection_def(cx, callee, rets[0], depth + 1)
     return fn, e
+
+
+def constant_tables(fn: FuncInfo, expr: ast.AST) -> ast.AST:
+    """`expr` with the names of module-level (or class-level, read as `self.X` / `cls.X` / `Class.X`) constant tables
+    replaced by their value: a set / frozenset / tuple / list display of dotted names or literals that is bound exactly
+    once, at the top level, and that nothing in the module rebinds, declares `global` or changes in place.  Names the
+    function binds itself (parameters, locals) are left alone."""
+    import copy
+    mod = fn.module
+    cls = fn.cls if fn.cls is not None else (fn.outer.cls if fn.outer is not None else None)
+
+    def is_table(v: ast.AST | None) -> bool:
+        inner = v
+        while isinstance(inner, ast.Call) and isinstance(inner.func, ast.Name) and inner.func.id in ("set", "frozenset", "tuple", "list") \
+                and len(inner.args) == 1 and not inner.keywords:
+            inner = inner.args[0]
+        return isinstance(inner, (ast.Set, ast.Tuple, ast.List)) and bool(inner.elts) and all(
+            isinstance(x, ast.Constant) or (isinstance(x, (ast.Name, ast.Attribute)) and all(
+                isinstance(y, (ast.Name, ast.Attribute, ast.Load)) for y in ast.walk(x))) for x in inner.elts)
+
+    def stable(name: str, scope: list[ast.stmt], attr_of: tuple[str, ...] = ()) -> bool:
+        binds = 0
+        for st in scope:
+            targets = st.targets if isinstance(st, ast.Assign) else [st.target] if isinstance(st, (ast.AnnAssign, ast.AugAssign)) else []
+            binds += sum(1 for t in targets for x in ast.walk(t) if isinstance(x, ast.Name) and x.id == name)
+        if binds != 1:
+            return False
+        spell = {name} | {f"{o}.{name}" for o in attr_of}
+        for n in ast.walk(mod.tree):
+            if isinstance(n, (ast.Global, ast.Nonlocal)) and name in n.names:
+                return False
+            if isinstance(n, ast.Call) and isinstance(n.func, ast.Attribute) and n.func.attr in MUTATORS and txt(n.func.value) in spell:
+                return False
+            if isinstance(n, (ast.Assign, ast.AugAssign, ast.AnnAssign, ast.Delete)) and attr_of:
+                ts = n.targets if isinstance(n, (ast.Assign, ast.Delete)) else [n.target]
+                if any(isinstance(t, ast.Attribute) and txt(t) in spell for t in ts):
+                    return False
+            if isinstance(n, (ast.Assign, ast.AugAssign, ast.Delete)):
+                ts = n.targets if isinstance(n, (ast.Assign, ast.Delete)) else [n.target]
+                if any(isinstance(t, ast.Subscript) and txt(t.value) in spell for t in ts):
+                    return False
+        return True
+
+    outer = fn.outer.node if fn.outer is not None else None
+    own = set()
+    for f in [fn.node] + ([outer] if outer is not None else []):
+        own |= {a.arg for a in f.args.posonlyargs + f.args.args + f.args.kwonlyargs}
+        own |= {x.id for x in ast.walk(f) if isinstance(x, ast.Name) and isinstance(x.ctx, (ast.Store, ast.Del))}
+    owners = ("self", "cls") + ((cls.name,) if cls is not None else ())
+
+    class T(ast.NodeTransformer):
+        def visit_Name(self, node: ast.Name) -> ast.AST:  # noqa: N802
+            v = mod.assigns.get(node.id)
+            if isinstance(node.ctx, ast.Load) and node.id not in own and is_table(v) and stable(node.id, mod.tree.body):
+                return ast.copy_location(copy.deepcopy(v), node)  # type: ignore[arg-type]
+            return node
+
+        def visit_Attribute(self, node: ast.Attribute) -> ast.AST:  # noqa: N802
+            if cls is not None and isinstance(node.value, ast.Name) and node.value.id in owners and isinstance(node.ctx, ast.Load):
+                v = cls.class_assigns.get(node.attr)
+                if is_table(v) and stable(node.attr, cls.node.body, owners) and not any(
+                        node.attr in sub.class_assigns for sub in prog_subclasses(cls)):
+                    return ast.copy_location(copy.deepcopy(v), node)  # type: ignore[arg-type]
+            return self.generic_visit(node)
+
+    return T().visit(copy.deepcopy(expr))
+
+
+_SUBCLASSES: list[Callable[[Any], list[Any]]] = []
+
+
+def prog_subclasses(cls: Any) -> list[Any]:
+    return _SUBCLASSES[-1](cls) if _SUBCLASSES else []
 
 
 def category_set(c: Any, var: str) -> set[str] | None:
